@@ -171,13 +171,30 @@ def run(ck):
         if r == count and l.is_const():
             return (op == "gt" and l.const_value() == 2) or (op == "ge" and l.const_value() == 1) or (op == "eq" and l.const_value() == 1)
         return False
+    foreign = []
+    own_prefix = None
+    try:
+        own = Oracle(repo, ae, c, {}).eval("self.get_penetrant_data(component).experiments[0].activation_energy")
+        name = getattr(own, "path", None)
+        if isinstance(name, str) and name.endswith("[0].activation_energy"):
+            own_prefix = name[:-len("0].activation_energy")]
+    except Exception:
+        own_prefix = None
     for o in outs:
         few = any(is_few(cn, d) for cn, d in o.trace)
+        # the stated value that excuses a single experiment must be read from the component's OWN experiments (the filtered list)
         nostated = any(isinstance(cn, tuple) and cn[0] == "isnone" and cn[1].endswith(".activation_energy") and d for cn, d in o.trace)
+        if nostated and own_prefix:
+            foreign += [cn[1] for cn, d in o.trace if isinstance(cn, tuple) and cn[0] == "isnone" and cn[1].endswith(".activation_energy")
+                        and not cn[1].startswith(own_prefix)]
         if few and nostated:
             sel.append(o)
     ck.ob("J3", ae.qualname, "fewer than two experiments without a stated activation energy are rejected", ae.loc(),
           bool(sel) and all(o.kind == "raise" for o in sel), "found %d such path(s)" % len(sel))
+    ck.ob("J3", ae.qualname, "the stated activation energy that excuses a single experiment is read from the component's own experiments", ae.loc(),
+          own_prefix is not None and not foreign,
+          "the value tested for presence is %s, which is not an element of the experiments selected for the component: another component's "
+          "stated constant lets an under-specified component through" % "; ".join(sorted(set(foreign)))[:300] if foreign else "the component's own stated value could not be expressed")
     for name in ("Component.get_vapor_pressure", "Component.get_vaporisation_heat"):
         f = repo.find_function(name)
         ck.analysed_function(f)
